@@ -34,6 +34,7 @@ package transport
 //gvc:  loop 1 invariant nn: firstErr != nil
 //gvc:  sink SetReference requires cas: ite(forall(k, 0, 32, cmd.Old.hash[k] == 0), st.#refs[strid(cmd.Name)] == 0, st.#refs[strid(cmd.Name)] != 0 && forall(k, 0, 32, field(st.#refs[strid(cmd.Name)], "plumbing.Reference.h").hash[k] == cmd.Old.hash[k]))
 //gvc:  sink SetReference requires name: strid(ref.n) == strid(cmd.Name) && ref.h == cmd.New
+//gvc:  sink setStatus requires reported: arg3 == nil ==> ite(forall(k, 0, 32, cmd.New.hash[k] == 0), st.#refs[strid(cmd.Name)] == 0, st.#refs[strid(cmd.Name)] != 0 && field(st.#refs[strid(cmd.Name)], "plumbing.Reference.h") == cmd.New)
 //gvc:  sink RemoveReference requires cas: st.#refs[strid(cmd.Name)] != 0 && forall(k, 0, 32, field(st.#refs[strid(cmd.Name)], "plumbing.Reference.h").hash[k] == cmd.Old.hash[k])
 //gvc:end
 
